@@ -357,6 +357,11 @@ def mutants_for(pid):
     return [m for m in MUTANTS if pid in m['props']]
 
 
+def controls_for(pid):
+    from .mutants import CONTROLS
+    return [m for m in CONTROLS if pid in m['props']]
+
+
 def thorough_extra(program, pid, ctx, jobs=None):
     """run the corpus for one property; returns (extra coverage dict, errors)"""
     from .framework import KNOWN_FILE
@@ -374,10 +379,23 @@ def thorough_extra(program, pid, ctx, jobs=None):
             stale.append(m['id'])
         else:
             mut_args.append((m['id'], pid, s2))
+    ctl_args = []
+    for m in controls_for(pid):
+        s2 = apply_mutant(sources, m)
+        if s2 is None:
+            stale.append(m['id'])
+        else:
+            ctl_args.append((m['id'], pid, s2))
     t0 = time.time()
     with multiprocessing.Pool(jobs) as pool:
         twin_res = pool.map(_twin_job, twin_args)
         mut_res = pool.map(_mutant_job, mut_args)
+        ctl_res = pool.map(_mutant_job, ctl_args)
+    for mid, _, v, e, n in ctl_res:
+        new = set(map(tuple, v)) - base_viol
+        if new or e:
+            errors.append('behaviour-preserving control %s changes the verdicts of %s: new=%s errors=%s'
+                          % (mid, pid, sorted(new)[:3], e[:2]))
     twins_report = []
     for kind, _, v, e, n in twin_res:
         if v is None:
@@ -406,6 +424,7 @@ def thorough_extra(program, pid, ctx, jobs=None):
     extra = {
         'selfvalidation': {
             'silent_twins': twins_report,
+            'controls_run': len(ctl_res),
             'firing_variants_run': len(mut_res),
             'firing_variants_reported': len(fired),
             'firing_variants_stale': stale,
@@ -413,7 +432,7 @@ def thorough_extra(program, pid, ctx, jobs=None):
             'fired_samples': fired[:12],
             'wall_s': round(time.time() - t0, 2),
         },
-        'programs': 1 + len(twin_res) + len(mut_res),
+        'programs': 1 + len(twin_res) + len(mut_res) + len(ctl_res),
     }
     return extra, errors
 
@@ -476,6 +495,25 @@ def main(argv=None):
                     rc = 1
                     print('MISSED %-28s %s  (%s) %s' % (mid, pid, byid[mid]['what'], e[:1] if e else ''))
             print('%d mutant runs, %d fired' % (len(res), nf))
+            from .mutants import CONTROLS
+            jobs = []
+            for m in CONTROLS:
+                for pid in m['props']:
+                    if pid not in pids:
+                        continue
+                    s2 = apply_mutant(sources, m)
+                    if s2 is None:
+                        print('STALE  %s (%s): anchor text not found exactly once' % (m['id'], pid))
+                        rc = 1
+                        continue
+                    jobs.append((m['id'], pid, s2))
+            res = pool.map(_mutant_job, jobs)
+            for mid, pid, v, e, n in res:
+                new = set(map(tuple, v)) - base[pid][0]
+                if new or e:
+                    rc = 1
+                    print('CONTROL %-24s %s ALARMS: %s %s' % (mid, pid, sorted(new)[:3], e[:1]))
+            print('%d control runs' % len(res))
     return rc
 
 
